@@ -129,6 +129,7 @@ pub fn assumptions() -> Vec<String> {
          inside the parameter set as a serialisable SplitMix64 (rand_xoshiro is built without serde); FastIca always gets random_state; k-means|| initialisation and \
          decision trees with more than two classes (impurity sums follow HashMap order) are not refit-compared; decision-tree refits use two classes and sample weights 1 + 2^-(i+1) (n <= 18), whose subset sums are exact in f32 and pairwise different, so no modal-class tie exists".into(),
         "count-vectoriser refits are compared up to column order (vocabulary order follows HashMap iteration at fit time)".into(),
+        "Tweedie GLM fits always run in f64 (the f32 line search can fail to terminate; a hang cannot be skipped): the f32 TweedieRegressor instance is the f64 fit read back as f32 through JSON, and f32 Tweedie parameter sets are not refit-compared; identity link only with power 0; logistic / FTRL / GMM / k-means parameter values that pass validation are kept moderate for the same reason".into(),
         "SVM fits never enable `shrinking` (C13 finding); decision-tree features are multiples of 2^-8 so midpoints are exact (C14 finding)".into(),
         "linfa::Error::NdShape is documented as not serialisable (serde(skip) variant): serialising it must return an error, not panic".into(),
         "types behind private modules (appx-dbscan cell grid / counting tree, ArgminParam, Pls<F>, NaiveBayes class info, Norms) are reached only through the public types that contain them".into(),
